@@ -193,7 +193,7 @@ func (a *Async) enabled(k int) bool {
 		return true
 	case aSupplyTx:
 		for _, n := range w.Live() {
-			if len(wanted(n)) > 0 {
+			if len(Wanted(n)) > 0 {
 				return true
 			}
 		}
@@ -355,12 +355,12 @@ func (a *Async) step() {
 	case aSupplyTx:
 		var c []*Node
 		for _, n := range w.Live() {
-			if len(wanted(n)) > 0 {
+			if len(Wanted(n)) > 0 {
 				c = append(c, n)
 			}
 		}
 		n := c[a.r("node", len(c))]
-		wl := wanted(n)
+		wl := Wanted(n)
 		h := wl[a.r("missing", len(wl))]
 		if tx, ok := w.TxByHash(h); ok {
 			if _, have := n.Pool[h]; !have && a.pct("poolfirst", 20) {
@@ -652,9 +652,9 @@ func (a *Async) equivocate(j, idx int, h uint32, v byte, honest []*Node) {
 	}
 }
 
-// wanted lists what node n's application was asked for at its current height and view and has not handed over yet,
+// Wanted lists what node n's application was asked for at its current height and view and has not handed over yet,
 // in a stable order.
-func wanted(n *Node) []vt.H {
+func Wanted(n *Node) []vt.H {
 	var out []vt.H
 	for h, hv := range n.Want {
 		if hv[0] < n.D.BlockIndex {
